@@ -726,7 +726,8 @@ STRICT_DEW = bool(os.environ.get('STRICT_DEW'))
 def in_dom(obj, T):
     return obj.Tmin <= T <= obj.Tmax
 
-def check_pair(BP, DP, chs, z, T, P, ideal, label):
+def check_pair(BP, DP, chs, z, T, P, ideal, label, strict=False):
+    strict = strict or STRICT_DEW
     """Property clauses for one (objects, composition) pair; returns a message or None."""
     z = np.asarray(z, float)
     npos = int((z > 0).sum())
@@ -768,7 +769,7 @@ def check_pair(BP, DP, chs, z, T, P, ideal, label):
         # checked) does not converge for partially miscible systems on the unchanged tree (e.g. Water/Ammonia/Benzene, Dortmund:
         # 1 - sum x = 0.66); that is the solver-convergence clause DESIGN section 4 lists as measured, not proved, and it is
         # reported separately (STRICT_DEW=1 turns the test on for every package).
-        if in_dom(DP, Td) and (ideal or STRICT_DEW):
+        if in_dom(DP, Td) and (ideal or strict):
             Ps = np.array([c.Psat(Td) for c in chs])
             xx = zn * P / Ps / DP.gamma(x, Td) * DP.phi(zn, Td, P) / DP.pcf(Td, P, Ps)
             if abs(1 - xx.sum()) > 1e-6:
@@ -801,7 +802,7 @@ def check_pair(BP, DP, chs, z, T, P, ideal, label):
                     return (f'{label}: bubble equation violated at T={T!r}, returned P={Pb!r}: 1 - sum y on the normalised '
                             f'composition is {1 - yy.sum()!r}')
             xx = zn * Pd / Ps / DP.gamma(x, T) * DP.phi(zn, T, Pd) / DP.pcf(T, Pd, Ps)
-            if (ideal or STRICT_DEW) and abs(1 - xx.sum()) > 1e-6:
+            if (ideal or strict) and abs(1 - xx.sum()) > 1e-6:
                 return (f'{label}: dew equation violated at T={T!r}, returned P={Pd!r}: 1 - sum x on the normalised '
                         f'composition is {1 - xx.sum()!r}')
             if ideal and Pd > Pb * (1 + 1e-9): return f'{label}: P_dew={Pd!r} exceeds P_bubble={Pb!r} at T={T!r}'
@@ -842,7 +843,8 @@ def dew_converged(DP, chs, zn, name, arg, r):
     except Exception:
         return False
 
-def invariance(BP, DP, BPp, DPp, z, perm, k, T, P, label, ideal=True, chs=None):
+def invariance(BP, DP, BPp, DPp, z, perm, k, T, P, label, ideal=True, chs=None, strict=False):
+    strict = strict or STRICT_DEW
     z = np.asarray(z, float)
     if int((z > 0).sum()) == 0:
         return None
@@ -850,7 +852,7 @@ def invariance(BP, DP, BPp, DPp, z, perm, k, T, P, label, ideal=True, chs=None):
     zp = z[perm]
     zn = z / z.sum()
     # results of a dew solve with a composition-dependent gamma are compared only when the solves being compared converged
-    gate = (lambda name, arg, r, o=DP, cc=chs, zz=zn: dew_converged(o, cc, zz, name, arg, r)) if (not ideal and chs is not None and not STRICT_DEW) else None
+    gate = (lambda name, arg, r, o=DP, cc=chs, zz=zn: dew_converged(o, cc, zz, name, arg, r)) if (not ideal and chs is not None and not strict) else None
     first = {}
     for name, o, a in CALLS:
         obj, objp, arg = (BP, BPp, P if a == 'P' else T) if o == 'B' else (DP, DPp, P if a == 'P' else T)
@@ -859,6 +861,9 @@ def invariance(BP, DP, BPp, DPp, z, perm, k, T, P, label, ideal=True, chs=None):
         r0 = getattr(obj, name)(z.copy(), arg)
         first[name] = r0
         dew_gate = gate is not None and o == 'D'
+        if strict and not ideal and o == 'D' and chs is not None and not dew_converged(obj, chs, zn, name, arg, r0):
+            return (f'{label}: dew equation violated by the point {name} returned ({r0[0]!r}, arg={arg!r}): the solve does not '
+                    f'satisfy its own equation, so results for k*z / a permuted list are not comparable')
         ok0 = (not dew_gate) or gate(name, arg, r0)
         rk = getattr(obj, name)(k * z, arg)
         if ok0 and ((not dew_gate) or gate(name, arg, rk)) and (rel(r0[0], rk[0]) > 1e-6 or np.abs(r0[1] - rk[1]).max() > 1e-6):
@@ -917,9 +922,10 @@ def oracle(case):
         m = package_contracts(BP, DP, BPp, chs, zn, perm, Tprobe, Pprobe, label)   # before any solve
         if m: return m
         g_before = np.array(BP.gamma(zn.copy(), Tprobe), float) * np.ones(len(zn))
-        m = check_pair(BP, DP, chs, z, T, P, ideal, label)
+        strict = bool(case.get('strict_dew'))
+        m = check_pair(BP, DP, chs, z, T, P, ideal, label, strict)
         if m: return m
-        m = invariance(BP, DP, BPp, DPp, z, perm, case['k'], T, P, label, ideal=ideal, chs=chs)
+        m = invariance(BP, DP, BPp, DPp, z, perm, case['k'], T, P, label, ideal=ideal, chs=chs, strict=strict)
         if m: return m
         g_after = np.array(BP.gamma(zn.copy(), Tprobe), float) * np.ones(len(zn))
         if not vclose(g_before, g_after):
@@ -972,6 +978,11 @@ def oracle(case):
     return None
 
 def finding_key(case, msg):
+    if 'dew equation violated' in msg:
+        # registered known finding C08:dew-equation = the dew solvers with a composition-dependent gamma returning a point that
+        # does not satisfy its own equation; the same message for composition-independent K-values is a different defect
+        nonideal = (case.get('package') in ('dortmund', 'unifac')) if case.get('kind') == 'real' else (case.get('pkg', {}).get('G') == 's')
+        return 'C08:dew-equation' if nonideal else 'C08:dew-equation-ideal'
     if 'depends on the scale of z' in msg:
         for name in ('solve_Ty', 'solve_Tx', 'solve_Px', 'solve_Py'):
             if name in msg:
@@ -979,7 +990,7 @@ def finding_key(case, msg):
     for pat, key in (('depends on the order', 'perm'), ('not permuted with the chemical list', 'package-perm'),
                      ('change between two', 'package-state'), ('changed while', 'package-state'),
                      ('depends on earlier calls', 'history'), ('Gamma.f', 'gamma-f-args'),
-                     ('bubble equation violated', 'bubble-equation'), ('dew equation violated', 'dew-equation'),
+                     ('bubble equation violated', 'bubble-equation'),
                      ('differs from T =', 'PT-inverse'), ('differs from P =', 'TP-inverse'), ('exceeds', 'ordering'),
                      ('single component', 'single-component'), ('not normalised', 'normalised')):
         if pat in msg:
@@ -1037,4 +1048,11 @@ CORPUS = [
     {'kind': 'real', 'ids': ['Water', 'Ethanol'], 'z': [0.5, 0.5], 'perm': [1, 0], 'k': 3., 'package': 'dortmund', 'P': 101325.},
     {'kind': 'real', 'ids': ['Water', 'Ethanol'], 'z': [0.5, 0.5], 'perm': [1, 0], 'k': 3., 'package': 'ideal', 'T': 350.},
 ]
-WITNESSES = []
+# Known finding C08:dew-equation (C08_dew_equation_statement in Props.v): with a composition-dependent gamma the dew solvers return
+# a point that does not satisfy the dew equation (the real flexsolve does not deliver the root / fixed-point contract there).
+# Re-established on every run with the strict test that the regular stream gates.
+WITNESSES = [
+    {'key': 'C08:dew-equation',
+     'case': {'kind': 'real', 'template': 'witness', 'ids': ['Water', 'Ammonia', 'Benzene'], 'z': [1.0, 3.0, 1.0], 'perm': [2, 1, 0],
+              'k': 4.0, 'package': 'dortmund', 'T': 348.4613, 'strict_dew': True}},
+]
